@@ -61,4 +61,4 @@ if __name__ == '__main__':
     for f in fails:
         print('FIXTURE-FAIL', f)
     print('fixture selftest: %d equal pairs, %d distinct pairs, %d failures' % (n_eq, n_ne, len(fails)))
-    sys.exit(2 if fails or n_eq < 9 or n_ne < 7 else 0)
+    sys.exit(2 if fails or n_eq < 14 or n_ne < 11 else 0)
